@@ -1,6 +1,7 @@
 SPECIFICATION Spec
 CONSTANTS
   MaxEdits = 2
+  Deep = FALSE
   Sample = TRUE
 INVARIANT CreateIsExact
 CHECK_DEADLOCK FALSE
